@@ -349,7 +349,7 @@ func (w *c13World) c13Scenario(r *rng, app, asset uint64) {
 
 // ---- directed cases: the refutation witnesses of Properties/C13.v on the real keepers ---------
 
-// C13-F1: generation-2 liquidation penalty booked under the collateral asset
+// C13-F1 (repaired): generation-2 liquidation penalty; booked under the debt asset it is paid in
 func (w *c13World) c13DirectedPenalty() {
 	w.c13V2Liquidation(w.apps[0], w.assets[1], 20000000)
 	w.c13Obs()
